@@ -6,6 +6,7 @@
 from __future__ import annotations
 
 import copy
+import heapq
 import itertools
 import warnings
 from collections import defaultdict
@@ -14,7 +15,7 @@ from typing import TYPE_CHECKING
 import numpy as np
 
 if TYPE_CHECKING:
-    from collections.abc import Sequence
+    from collections.abc import Iterator, Sequence
     from typing import TypeVar
 
     from stereomolgraph import Element
@@ -156,8 +157,9 @@ def _AC2BO(AC: np.ndarray[tuple[N, N], np.dtype[np.int8]],
             # sys.exit()
         valences_list_of_lists.append(possible_valence)
 
-    # convert [[4],[2,1]] to [[4,2],[4,1]]
-    valences_list = itertools.product(*valences_list_of_lists)
+    # convert [[4],[2,1]] to [[4,2],[4,1]], fewest deviations from the
+    # first listed (standard) valences first
+    valences_list = _valence_combinations(valences_list_of_lists)
 
     best_BO = AC.copy()
 
@@ -218,6 +220,32 @@ def _AC2BO(AC: np.ndarray[tuple[N, N], np.dtype[np.int8]],
                 best_BO = BO.copy()
 
     return best_BO, atomic_valence_electrons
+
+def _valence_combinations(valences_list_of_lists: list[list[int]]
+                          ) -> Iterator[tuple[int, ...]]:
+    """All combinations of the possible valences of the atoms (as
+    itertools.product), ordered by the total number of steps away from the
+    first listed valence of each atom. In product order the valences of the
+    last atoms vary fastest, so whether a hypervalent P or a monovalent O was
+    tried first depended on the order of the atoms."""
+    if any(not valences for valences in valences_list_of_lists):
+        return
+    n = len(valences_list_of_lists)
+    start = (0,) * n
+    heap: list[tuple[int, tuple[int, ...]]] = [(0, start)]
+    seen = {start}
+    while heap:
+        rank, idx = heapq.heappop(heap)
+        yield tuple(
+            valences[i] for valences, i in zip(valences_list_of_lists, idx)
+        )
+        for k in range(n):
+            if idx[k] + 1 < len(valences_list_of_lists[k]):
+                nxt = idx[:k] + (idx[k] + 1,) + idx[k + 1:]
+                if nxt not in seen:
+                    seen.add(nxt)
+                    heapq.heappush(heap, (rank + 1, nxt))
+
 
 def _get_UA(maxValence_list: Sequence[int], valence_list: list[int]
             ) -> tuple[list[int], list[int]]:
